@@ -190,8 +190,10 @@ static inline int readline_putchar(struct readline *rl, char c)
             // TODO: Возможно тут некорректно отрабатывается комбинация rnrnrnrn
             if ((rl->last == '\n' || rl->last == '\r') && rl->last != c)
             {
+                // second byte of a CR LF / LF CR pair: swallow it and forget it,
+                // so that the next CR or LF starts a new pair
                 rl->last = 0;
-                retcode = READLINE_NOTHING;
+                return READLINE_NOTHING;
             }
             else
             {
